@@ -475,13 +475,13 @@ type c14stream struct {
 	conn c14conn
 }
 
-func (s *c14stream) Read(b []byte) (int, error)        { return s.r.Read(b) }
-func (s *c14stream) Write(b []byte) (int, error)       { return len(b), nil }
-func (s *c14stream) Close() error                      { return nil }
-func (s *c14stream) SetReadDeadline(time.Time) error   { return nil }
-func (s *c14stream) SetWriteDeadline(time.Time) error  { return nil }
-func (s *c14stream) Protocol() protocol.ID             { return s.pid }
-func (s *c14stream) Conn() network.Conn                { return s.conn }
+func (s *c14stream) Read(b []byte) (int, error)       { return s.r.Read(b) }
+func (s *c14stream) Write(b []byte) (int, error)      { return len(b), nil }
+func (s *c14stream) Close() error                     { return nil }
+func (s *c14stream) SetReadDeadline(time.Time) error  { return nil }
+func (s *c14stream) SetWriteDeadline(time.Time) error { return nil }
+func (s *c14stream) Protocol() protocol.ID            { return s.pid }
+func (s *c14stream) Conn() network.Conn               { return s.conn }
 
 type c14deadliner struct{ ch chan core.Duty }
 
@@ -523,6 +523,25 @@ type c14env struct {
 
 const c14slot = 100
 
+type c14eth2 struct {
+	eth2wrap.Client
+	spec *eth2api.Response[map[string]any]
+}
+
+func (c *c14eth2) Spec(context.Context, *eth2api.SpecOpts) (*eth2api.Response[map[string]any], error) {
+	return c.spec, nil
+}
+
+func (c *c14eth2) Domain(_ context.Context, typ eth2p0.DomainType, _ eth2p0.Epoch) (eth2p0.Domain, error) {
+	var d eth2p0.Domain
+	copy(d[:], typ[:])
+	return d, nil
+}
+
+func (c *c14eth2) GenesisDomain(ctx context.Context, typ eth2p0.DomainType) (eth2p0.Domain, error) {
+	return c.Domain(ctx, typ, 0)
+}
+
 type c14tbls struct{ tbls.Herumi }
 
 func (c14tbls) Verify(tbls.PublicKey, []byte, tbls.Signature) error {
@@ -531,11 +550,25 @@ func (c14tbls) Verify(tbls.PublicKey, []byte, tbls.Signature) error {
 
 func c14newEnv(t *testing.T, r *enumx.Run) *c14env {
 	e := &c14env{t: t, r: r, ctx: context.Background()}
-	bmock, err := beaconmock.New(e.ctx)
-	if err != nil {
-		t.Fatalf("beaconmock: %v", err)
+	// The beacon node: a beaconmock, its spec fetched once; spec and domain lookups are then served from memory
+	// so that no outcome depends on HTTP timing (the domain value is irrelevant: the BLS equation is not evaluated).
+	var cl *c14eth2
+	for try := 0; try < 5 && cl == nil; try++ {
+		bmock, err := beaconmock.New(e.ctx)
+		if err != nil {
+			continue
+		}
+		spec, err := bmock.Spec(e.ctx, &eth2api.SpecOpts{})
+		if err != nil || spec == nil || spec.Data["SLOTS_PER_EPOCH"] == nil {
+			continue
+		}
+		cl = &c14eth2{Client: bmock, spec: spec}
 	}
-	e.eth2Cl = bmock
+	if cl == nil {
+		r.NotExhaustive("harness: the beaconmock could not be started")
+		t.Skip("beaconmock unavailable")
+	}
+	e.eth2Cl = cl
 
 	secret := c14must(tbls.GenerateSecretKey())
 	pub := c14must(tbls.SecretToPublicKey(secret))
@@ -586,6 +619,7 @@ func c14newEnv(t *testing.T, r *enumx.Run) *c14env {
 	e.host = &c14host{}
 	e.psx = parsigex.NewParSigEx(e.host, nil, 0, []peer.ID{"self", e.peer}, verify, gater)
 	if e.host.handler == nil {
+		r.NotExhaustive("harness: stream handler not registered")
 		t.Fatalf("stream handler not registered")
 	}
 	e.psx.Subscribe(func(ctx context.Context, duty core.Duty, set core.ParSignedDataSet) error {
